@@ -209,3 +209,21 @@ PROPS['C14'] = {
                    'nested/failing serialisation programs'),
     'level_note': 'Trusted: Lean kernel, harness; the model of send() is hand-written and tied by correspondence (tokens, attachments, results); Drop-based release observed only',
 }
+
+
+PROPS['C15'] = {
+    'modules': ['IpcModel.Props.C15'],
+    'theorems': ['C15.C15_limits', 'C15.C15_refuse', 'C15.C15_accept_all', 'C15.osSend_ok', 'Arith.cmsg_fits_iff', 'Arith.cmsg_writer', 'Arith.channelLength_spec'],
+    'scenarios': frag_scen('c15', [4608], [4608, 0]),
+    'search': search_frag,
+    'rule': ('attachment counts {0,1,2,31,62..66,100,252,253,254,300} (thorough: every count 0..300) x data parts {empty, 10 bytes, exactly one packet, '
+             'one byte over, three packets} x {senders only, senders + regions}, plus ENOBUFS-forced fragmentation at 62..64 attachments; each case: '
+             'send result, receive, every attachment probed, follow-on message; non-trivial = more than one system call or a refusal; distinct = distinct trace'),
+    'explanation': ('refusal thresholds regenerated from the source and proved equal to the receiver capacity; accepted => all attachments arrive in order '
+                    '(kernel control-buffer truncation modelled), refused => nothing transmitted; packet traces and results compared with the model'),
+    'assumptions': ['Linux SCM_MAX_FD = 253 and silent truncation of descriptors that do not fit the receiver control buffer (kernel model)'],
+    'level_text': ('Kernel-checked: a message is refused iff its descriptors (plus the dedicated socket when fragmented) exceed MAX_FDS_IN_CMSG, a refused message '
+                   'transmits nothing, an accepted one delivers every attachment in order with the right kind; thresholds are regenerated from the Rust source; '
+                   'real send/recv traced for 0..300 attachments x 5 data shapes'),
+    'level_note': 'Trusted: Lean kernel, translator, harness; kernel SCM_RIGHTS truncation behaviour is modelled and exercised, not proved',
+}
